@@ -48,6 +48,34 @@ def gen_chain(rng, maxlen=4):
     return chain
 
 
+class ForeignFuture(object):
+    """a future of another framework: implements the Future interface without being a concurrent.futures.Future"""
+
+    def __init__(self, inner):
+        self._inner = inner
+
+    def add_done_callback(self, fn):
+        self._inner.add_done_callback(lambda _f: fn(self))
+
+    def result(self, timeout=None):
+        return self._inner.result(timeout)
+
+    def exception(self, timeout=None):
+        return self._inner.exception(timeout)
+
+    def cancel(self):
+        return self._inner.cancel()
+
+    def cancelled(self):
+        return self._inner.cancelled()
+
+    def done(self):
+        return self._inner.done()
+
+    def running(self):
+        return self._inner.running()
+
+
 class Env(object):
     """One run of one program form: fresh base executor, fresh recorded functions."""
 
@@ -71,6 +99,8 @@ class Env(object):
             v = ("r", a, sorted(kw.items()))
             if self.kind == "future":
                 return self.ME.futures.f_return(v)
+            if self.kind == "foreign_future":
+                return ForeignFuture(self.ME.futures.f_return(v))
             return v
         raise (UserErrorA if step == "A" else UserErrorB)("call%d" % i)
 
@@ -232,7 +262,7 @@ def run_diff(case, res):
     for it in range(case["n"]):
         chain = gen_chain(rng)
         base = rng.choice(["sync", "sync", "pool"])
-        kind = rng.choice(["function", "partial", "object", "future", "object_attrs", "rebound"])
+        kind = rng.choice(["function", "partial", "object", "future", "object_attrs", "rebound", "foreign_future"])
         script = [rng.choice(["A", "B"]) for _ in range(rng.choice([0, 0, 1, 2]))] + [rng.choice(["ret", "ret", "ret", "A"])]
         args = tuple(rng.choice([1, "s", None, (2, 3)]) for _ in range(rng.randint(0, 3)))
         kwargs = {k: rng.randint(0, 9) for k in rng.sample(["x", "y"], rng.randint(0, 2))}
@@ -243,7 +273,7 @@ def run_diff(case, res):
         ctx = Ctx()
         try:
             ref_form = "submit"
-            if kind == "future":
+            if kind in ("future", "foreign_future"):
                 # fn returns a future: compare flat_bind with bind + flat_map(identity), and both with submit + flat_map first
                 forms = ["flat_bind", "bind_flat_identity"]
                 ref = run_form(ctx, "submit", base, [{"t": "flat_map_identity", "k": -1}] + chain, script, kind, args, kwargs) \
